@@ -106,6 +106,20 @@ var specs = map[string]*Spec{
 		Assumptions:  []string{"only histories that respect the documented preconditions are generated (Open/Delete of existing names, Link from an existing name, Append on Create descriptors, ReadAt on Open descriptors, Close once)", "single client, no faults, no crash; those belong to C13/C14"},
 		ExpectProbes: []string{"scribble_after_append", "scribble_after_readat", "scribble_after_atomiccreate", "list_over_100_names", "real_kernel_runs"},
 	},
+	"C14": {
+		ID: "C14", Title: "Filesystem operations are linearizable under concurrency",
+		Driver: "./drivers/machdrv", ModFile: "go.mod",
+		Rewrites: machRewrites(), Flavours: []string{"plain", "race"},
+		Quick:    TierParams{Runs: 12000, RaceRuns: 2000, Budget: 5 * time.Minute},
+		Thorough: TierParams{Budget: 15 * time.Minute},
+		Level:    "exploration",
+		Rule: "plans: 1-2 directories, a sequential setup (a stable file, sometimes a victim file), then 2-4 client tasks with 9-12 operations in total, biased toward collisions: Create/Create and Create/Link of one name, Append through a creator's descriptor while others Open/ReadAt the file, Delete of the victim by one client, AtomicCreate (one client per name; concurrent AtomicCreates belong to C13), List during changes; MemFs in 2/3 of the plans, DirFs on the simulated kernel in 1/3. " +
+			"Each plan runs under one seeded schedule with yields before every statement, at every lock operation and system call; after the clients join every touched name is read back. The whole history (invoke/return stamped with event sequence numbers) is checked with porcupine against the filesystem model (descriptors by handle), plus: descriptors open at the same time are distinct, no deadlock, and in the -race build no race report. " +
+			"Non-trivial: two operations of different clients overlapped in time; distinct = distinct event-log fingerprints among those.",
+		Components:   machComponents,
+		Assumptions:  []string{"operations whose precondition could be broken by a concurrent client are generated only where both implementations agree on the outcome (Open of a missing name is refused by both; Delete only of a name no one else removes; Link only from a never-deleted name)", "DirFs.List is held to the model because directories are small enough for one getdents call; its documented non-atomicity over several calls is not exercised here"},
+		ExpectProbes: []string{"lock_contended"},
+	},
 	"C10": {
 		ID: "C10", Title: "Concurrent disk operations are linearizable per block",
 		Driver: "./drivers/machdrv", ModFile: "go.mod",
